@@ -564,9 +564,18 @@ func (s *hybridSearch) Execute() ([]HybridSearchResult, error) {
 			vecSearch = vecSearch.WithDocumentIDs(candidateIDs...)
 		}
 
-		results, err := vecSearch.Execute()
-		if err != nil {
-			return nil, fmt.Errorf("vector search failed: %w", err)
+		// An untrained index cannot hold a vector (Add refuses them), so nothing matches
+		// the vector part. Documents that carry only text or metadata are still there:
+		// a store that is trained after such documents were added keeps them in a
+		// memtable or segment built from the untrained template, and searching that part
+		// must not fail the whole query
+		var results []VectorResult
+		if s.index.vectorIndex.Trained() {
+			var err error
+			results, err = vecSearch.Execute()
+			if err != nil {
+				return nil, fmt.Errorf("vector search failed: %w", err)
+			}
 		}
 
 		vectorResults = make(map[uint32]float64)
